@@ -248,6 +248,15 @@ class CtorCtx(Ctx):
         return out
 
 
+def get_fn(idx, spec, kind=None):
+    """Symbolic walk of an arbitrary function (stores, calls, returns, local aliases)."""
+    fi = idx.find_func(spec, kind) if isinstance(spec, str) else spec
+    key = (id(idx), fi.site, 'fn', kind)
+    if key not in _TCACHE:
+        _TCACHE[key] = CtorCtx(idx, fi)
+    return _TCACHE[key]
+
+
 def get_ctor(idx, cls_spec):
     cls = idx.find_class(cls_spec) if isinstance(cls_spec, str) else cls_spec
     fi = cls.method("__init__")
